@@ -86,7 +86,10 @@ def rawField (j : Json) : RawField :=
     deps := (arr! (fld j "deps")).map str!
     title := optStrJ (fld j "title")
     description := optStrJ (fld j "description")
-    deprecated := bool! (fld j "deprecated")
+    deprecated := (match fld j "deprecated" with
+      | .bool true => Dep.yes
+      | .str s => Dep.to s
+      | _ => Dep.no)
     exampleV := if isNull (fld j "example") then none else some (toM (fld j "example")) }
 
 partial def tyOf (j : Json) : Ty :=
